@@ -193,10 +193,10 @@ def case_range(ctx, nf, grid, band):
                   lemmas=[ctx.implies(pos, ctx.le(A * A + B * B, 1))], info="0 <= spread <= 81.03 degrees")
 
 
-def _rot_setup(ctx, nf, nd, layout="scalar"):
+def _rot_setup(ctx, nf, nd, layout="scalar", dgrid="uniform0"):
     C.shim_modules(ctx)
     f = C.freq_grid(ctx, "nonuniform0", nf)
-    d = C.dir_grid(ctx, "uniform0", nd)
+    d = C.dir_grid(ctx, dgrid, nd)
     shp = C.layout_shape(layout)
     E = ctx.reals("E", shp + (nf, nd))
     for x in E.flat:
@@ -204,12 +204,12 @@ def _rot_setup(ctx, nf, nd, layout="scalar"):
     return f, d, E
 
 
-def case_rotation(ctx, nf, nd, k, mirror=False, relabel=False):
+def case_rotation(ctx, nf, nd, k, mirror=False, relabel=False, dgrid="uniform0"):
     """2D spectrum on a uniform grid rotated by k bins (or mirrored): per-frequency and band-averaged first moments
     rotate as vectors, second moments by twice the angle; e, moments, Hm0, periods, spread, peak index unchanged.
     relabel=True expresses the rotation by shifting the direction coordinate of every bin by k bins modulo 360
     (the values stay where they are), so the rotated object's direction axis crosses the 0/360 seam mid-array"""
-    f, d, E = _rot_setup(ctx, nf, nd)
+    f, d, E = _rot_setup(ctx, nf, nd, dgrid=dgrid)
     dr = d
     if mirror:
         Er = E[:, [(-j) % nd for j in range(nd)]]
@@ -304,6 +304,9 @@ def cases(tier):
                 opts=dict(trig_mode="algebraic", weight=nd * nf, check_timeout_ms=60000))
         add("case_rotation", f"mirror_nd{nd}_nf{nf}", nf=nf, nd=nd, k=0, mirror=True,
             opts=dict(trig_mode="algebraic", weight=nd * nf, check_timeout_ms=60000))
+        if nd == 4:      # the [-180,180) direction convention (rotation by rolling the values)
+            add("case_rotation", f"rot_neg_nd{nd}_nf{nf}_k1", nf=nf, nd=nd, k=1, dgrid="uniform_neg",
+                opts=dict(trig_mode="algebraic", weight=nd * nf, check_timeout_ms=60000))
         for k in ([1, nd - 1] if q else range(1, nd)):
             add("case_rotation", f"relabel_nd{nd}_nf{nf}_k{k}", nf=nf, nd=nd, k=k, relabel=True,
                 opts=dict(trig_mode="algebraic", weight=nd * nf, check_timeout_ms=60000))
